@@ -4,6 +4,7 @@ import (
 	"errors"
 	"fmt"
 	"runtime"
+	"sort"
 	"strings"
 	"sync"
 	"time"
@@ -35,9 +36,10 @@ type apiExp struct {
 }
 
 type apiState struct {
-	N    int
-	Hist []apiCall
-	Exp  apiExp
+	N     int
+	Hist  []apiCall
+	Exp   apiExp
+	Snaps [][]WalkObs // per iterator held by the program: what a walk gave when it was created
 }
 
 func apiStateOf(st *tla.State) *apiState {
@@ -51,12 +53,21 @@ func apiStateOf(st *tla.State) *apiState {
 	for _, t := range tla.Q(e["forest"]) {
 		a.Exp.Forest = append(a.Exp.Forest, treeOf(t))
 	}
-	for _, w := range tla.Q(e["walk"]) {
-		wr := tla.R(w)
-		a.Exp.Walk = append(a.Exp.Walk, WalkObs{Name: tla.Strs(wr["name"]), Branch: tla.Strs(wr["branch"]),
-			Path: tla.Lines(wr["path"]), Level: tla.I(wr["level"]), HasChild: tla.B(wr["hasChild"])})
+	a.Exp.Walk = walkObsOf(e["walk"])
+	for _, it := range tla.Q(st.Get("iters")) {
+		a.Snaps = append(a.Snaps, walkObsOf(tla.R(it)["snap"]))
 	}
 	return a
+}
+
+func walkObsOf(v tla.Value) []WalkObs {
+	var ws []WalkObs
+	for _, w := range tla.Q(v) {
+		wr := tla.R(w)
+		ws = append(ws, WalkObs{Name: tla.Strs(wr["name"]), Branch: tla.Strs(wr["branch"]),
+			Path: tla.Lines(wr["path"]), Level: tla.I(wr["level"]), HasChild: tla.B(wr["hasChild"])})
+	}
+	return ws
 }
 
 func histString(h []apiCall) string {
@@ -67,6 +78,10 @@ func histString(h []apiCall) string {
 			parts = append(parts, fmt.Sprintf("NewRoot(%s)", strings.Join(c.Name, "")))
 		case "Add":
 			parts = append(parts, fmt.Sprintf("Add(#%d,%s)", c.P, strings.Join(c.Name, "")))
+		case "Open":
+			parts = append(parts, fmt.Sprintf("it:=WalkIter(#%d)", c.P))
+		case "Range":
+			parts = append(parts, fmt.Sprintf("range it%d", c.P))
 		default:
 			parts = append(parts, fmt.Sprintf("%s(#%d)", c.Kind, c.P))
 		}
@@ -152,6 +167,28 @@ func runOp(kind string, node *gtree.Node, c *tok.Conc, variant int, exp *apiExp,
 		}
 		if o.Class() != "err" {
 			return fmt.Sprintf("verify of a missing directory: class=%s %s", o.Class(), firstLine(o.Panic)), "verify-missing-dir"
+		}
+	case "mkdir":
+		got, o := real.MkdirRootFresh(node)
+		if exp == nil {
+			return "", ""
+		}
+		if exp.K == "err" {
+			return checkSentinel(o, exp.Err), "sentinel"
+		}
+		var want []string
+		var rec func(t *Tree, prefix string)
+		rec = func(t *Tree, prefix string) {
+			p := prefix + c.Seq(t.Name) + "/"
+			want = append(want, p)
+			for _, k := range t.Kids {
+				rec(k, p)
+			}
+		}
+		rec(exp.Forest[0], "")
+		sort.Strings(want)
+		if o.Class() != "ok" || !sameStrs(got, want) {
+			return fmt.Sprintf("mkdir into a fresh directory: want=%v got=%v err=%v %s", want, got, o.Err, firstLine(o.Panic)), "mkdir-not-the-tree"
 		}
 	case "walk":
 		var recs []real.WalkRec
@@ -250,9 +287,37 @@ func canonDocWalk(ws []WalkObs, c *tok.Conc) string {
 func replayHistory(a *apiState, c *tok.Conc, mdDiff bool) (string, string) {
 	nodes := []*gtree.Node{nil}
 	kids := map[int]map[string]int{}
+	type heldIter struct {
+		it func(func(*gtree.WalkerNode, error) bool)
+		c  *tok.Conc
+	}
+	var held []heldIter
 	for i, call := range a.Hist {
 		last := i == len(a.Hist)-1
 		switch call.Op {
+		case "Open":
+			// the iterator is only created here; its branch strings are those given now
+			ci := tok.WithBranches(c, a.N+i)
+			var it func(func(*gtree.WalkerNode, error) bool)
+			if (a.N+i)%2 == 0 {
+				it = gtree.WalkIterFromRoot(nodes[call.P], branchOpts(ci)...)
+			} else {
+				it = gtree.WalkIterProgrammably(nodes[call.P], branchOpts(ci)...)
+			}
+			held = append(held, heldIter{it, ci})
+		case "Range":
+			h := held[call.P-1]
+			recs, o := real.RangeWalk(h.it)
+			if last {
+				want := expectWalk(a.Exp.Walk, h.c)
+				// the walk of the tree as it is now; a snapshot taken when the iterator was created would be a
+				// function of a tree too - anything else is not
+				atOpen := expectWalk(a.Snaps[call.P-1], h.c)
+				if o.Class() != "ok" || !(sameWalk(recs, want) || sameWalk(recs, atOpen)) {
+					return fmt.Sprintf("call %d range over iterator %d: want=%v (or, as of its creation, %v) got=%v err=%v %s",
+						i+1, call.P, want, atOpen, recs, o.Err, firstLine(o.Panic)), "deferred-iterator-walk-differs"
+				}
+			}
 		case "NewRoot":
 			n := gtree.NewRoot(c.Seq(call.Name))
 			if n == nil {
